@@ -176,6 +176,8 @@ def rep(lo: int, hi: int | None, body: Any) -> Any:
         return EPS
     if lo == 1 and hi == 1:
         return body
+    if hi is not None and lo == hi and lo <= 4:
+        return seq([body] * lo)  # x{2} is xx: one spelling
     if body[0] == 'rep' and lo in (0, 1) and hi is None and body[2] is None and body[1] in (0, 1):
         return ('rep', min(lo, body[1]), None, body[3])
     return ('rep', lo, hi, body)
